@@ -1381,6 +1381,12 @@ func heapProgramBody(p *Prog, r *R, prof string) {
 		}
 		p.newContainer()
 		p.do(&Op{Name: "NewList", Vals: nil})
+		if r.chance(0.04) {
+			// a long list: the sizes at which an implementation may switch strategy
+			p.do(&Op{Name: "NewListOf", Vals: []Operand{p.scalar()}, I: int64(pickOf(r, stressSizes))})
+			long := len(p.m.vars) - 1
+			p.do(&Op{Name: "LAdd", R: long, Vals: []Operand{p.value(long), p.scalar()}})
+		}
 		for len(p.ops) < nops && !p.broken {
 			if r.chance(0.08) {
 				ls := p.listRegs()
@@ -1396,6 +1402,14 @@ func heapProgramBody(p *Prog, r *R, prof string) {
 		}
 		p.do(&Op{Name: "NewObject", Vals: nil})
 		p.newContainer()
+		if r.chance(0.04) {
+			// a wide object (Go maps change their layout beyond 8 entries; an implementation may switch strategy by size)
+			var vs []Operand
+			for k, nk := 0, pickOf(r, []int{9, 17, 33, 65}); k < nk; k++ {
+				vs = append(vs, Operand{V: vstr(fmt.Sprintf("w%d", k))}, p.scalar())
+			}
+			p.do(&Op{Name: "NewObject", Vals: vs})
+		}
 		for len(p.ops) < nops && !p.broken {
 			p.anyOp(0.2)
 		}
